@@ -272,7 +272,7 @@ def run_schedule(case):
     total = int(rng.choice([1, 2, 3, 10, 100, 1000, 10000,
                             int(rng.integers(1, 10001))]))
     frac = float(rng.choice([1.0, 0.1, 0.5, 1e-4, rng.uniform(1e-6, 1.0),
-                             1.0 / total, 2.5 / total]))
+                             1.0 / total, 1.5 / total, 2.5 / total]))
     frac = min(max(frac, 1e-9), 1.0)
     start, end = (float(rng.choice([1.0, 0.0, 0.4, -3.0, rng.normal()])),
                   float(rng.choice([0.1, 1.0, 0.0, 7.0, rng.normal()])))
@@ -296,7 +296,8 @@ def run_schedule(case):
     if (start >= end and np.any(d > tol)) or (start <= end and np.any(d < -tol)):
         res.violation("C18/schedule/monotone", f"{where}: not monotone")
     span = total * frac
-    if span >= 1 + 1e-9 and abs(s[0] - s32) > tol:
+    # "spans at least one step": a transition of one whole step or more
+    if (span >= 1 + 1e-9 or int(total * frac) >= 1) and abs(s[0] - s32) > tol:
         res.violation("C18/schedule/start", f"{where}: first value {s[0]!r}")
     after = int(np.ceil(span - 1e-9))
     if after < total and np.any(np.abs(s[after:] - e32) > 1e-7 * max(1, abs(e32))):
